@@ -13,7 +13,9 @@ CHECKS = {
     "C02": (MC,
             "TLC model checking of DiffModel.tla (bounded JSON universe x all canonical well-formed diffs) + "
             "spec->code replay of every TLC-generated (doc, diff, Patch) into nbdime.patch + TLC trace validation "
-            "(DiffTrace.tla) of nbdime.diff on the exhaustive universe cross product and random documents",
+            "(DiffTrace.tla) of nbdime.diff on the exhaustive universe cross product and random documents + transcriptions "
+            "of the list differ (SeqDiffAlgo.tla) and of the line-to-character diff flattening (FlattenDiff.tla) checked by TLC "
+            "on bounded universes and compared case by case with nbdime",
             "The documented diff format is an explicit TLA+ specification (DiffFormat: WellFormed, Patch, type-aware Eq). "
             "TLC explores every (document, well-formed diff) of a bounded universe and checks the format's laws; every such "
             "case is replayed into the real patch, and every real diff() result on every pair of the universe plus random "
